@@ -83,6 +83,22 @@ def open_image(path):
     return determine_image_type(path)
 
 
+def open_with_history(path, history, workdir):
+    """The image OBJECT after a history of earlier actions on it (the public actions accept an opened image):
+    "ls" / "ls:<path>" / "export".  Their results are discarded; only the state they leave behind matters."""
+    img = open_image(path)
+    for k, op in enumerate(history):
+        if op == "export":
+            do_export(img, workdir.sub(f"_earlier{k}"))
+        elif op == "ls":
+            do_ls(img, "")
+        elif op.startswith("ls:"):
+            do_ls(img, op[3:])
+        elif op == "open-other":
+            pass
+    return img
+
+
 def exported_lines(stdout):
     return [l[len("Exported "):] for l in stdout.splitlines() if l.startswith("Exported ")]
 
